@@ -117,17 +117,14 @@ theorem path_exists (st : St) (bid : Nat) (hlink : OutsLinked st) :
       intro ci hci
       exact hlink u ci (by simpa using hci)
 
-/-- **flag_sound, directed-path branch (partial: the invariant is a hypothesis)**:
-    in a model state whose active constraints are tight and whose `out` lists are well linked, if
-    `isActiveDirectedPathBetween(v.right, v.left)` answers true and `v` is violated, then the
-    constraints known to the solver contain a positive-gap cycle (so the system is infeasible and the
-    flag `v.unsatisfiable := true` is justified). -/
-theorem flag_path_sound (st : St) (bid fuel vi : Nat)
-    (hlink : OutsLinked st) (htight : TightActive st) (hmem : st.cons[vi]! ∈ st.cons)
-    (hpath : (isActiveDirectedPathBetween st bid fuel (st.cons[vi]!).r (st.cons[vi]!).l).1 = true)
+/-- a directed walk of tight active constraints from `v.right` to `v.left` together with a violated
+    `v` is a positive-gap cycle of the constraint set -/
+theorem flag_walk_sound (st : St) (vi : Nat) (p : List Con)
+    (hp : ∀ c ∈ p, c ∈ st.cons ∧ c.active = true)
+    (hw : walkEnd (st.cons[vi]!).r (p.map conEdge) = some (st.cons[vi]!).l)
+    (htight : TightActive st) (hmem : st.cons[vi]! ∈ st.cons)
     (hviol : st.uval (st.cons[vi]!).r - (st.cons[vi]!).gap - st.uval (st.cons[vi]!).l < 0) :
     PosCycle (st.cons.toList.map toC) := by
-  obtain ⟨p, hp, hw⟩ := path_exists st bid hlink fuel _ _ hpath
   have hedge : ∀ c ∈ st.cons, conEdge c ∈ edgesOf (st.cons.toList.map toC) := by
     intro c hc
     simp only [edgesOf, List.mem_flatMap, List.mem_map]
@@ -149,5 +146,17 @@ theorem flag_path_sound (st : St) (bid fuel vi : Nat)
       linarith)
     simp only [sumW, conEdge] at hge ⊢
     linarith
+
+/-- **flag_sound, directed-path branch (the invariant is a hypothesis)**:
+    in a model state whose active constraints are tight and whose `out` lists are well linked, if
+    `isActiveDirectedPathBetween(v.right, v.left)` answers true and `v` is violated, then the
+    constraints known to the solver contain a positive-gap cycle. -/
+theorem flag_path_sound (st : St) (bid fuel vi : Nat)
+    (hlink : OutsLinked st) (htight : TightActive st) (hmem : st.cons[vi]! ∈ st.cons)
+    (hpath : (isActiveDirectedPathBetween st bid fuel (st.cons[vi]!).r (st.cons[vi]!).l).1 = true)
+    (hviol : st.uval (st.cons[vi]!).r - (st.cons[vi]!).gap - st.uval (st.cons[vi]!).l < 0) :
+    PosCycle (st.cons.toList.map toC) := by
+  obtain ⟨p, hp, hw⟩ := path_exists st bid hlink fuel _ _ hpath
+  exact flag_walk_sound st vi p hp hw htight hmem hviol
 
 end AdaptaVerif.Lemmas.VpscFlag
